@@ -32,6 +32,71 @@ def finite_problem(P):
     return True
 
 
+def ifun_chains(P, rng, n=8):
+    """Generator only: variants of P with a two-step data flow through an interpreted function whose consumer is
+    DECLARED BEFORE its producer: action chain_step (first action of the problem) copies the numeric ground fluent y
+    (or y + 1) into z, action chain_probe (last action) assigns y := g(constant).  The worker keeps the first variant
+    in which the real simulator can run producer then consumer and thereby gives z a value it gets in no shorter way."""
+    import copy
+    from ..upj import E, NV
+
+    ftype = {f["name"]: f["type"]["k"] for f in P["fluents"]}
+    nums = [k for k in upj.keys_of(P) if ftype[k[0]] == "int"]
+    names = {a["name"] for a in P["actions"]}
+    if len(nums) < 2 or not any(f["name"] == "g" for f in P.get("ifuns", [])) or names & {"chain_step", "chain_probe"}:
+        return []
+
+    def fe(k):
+        return {"name": k[0], "args": [E("obj", name=a) for a in k[1]]}
+
+    def fx(k):
+        return E("fluent", [E("obj", name=a) for a in k[1]], name=k[0])
+
+    def act(name, target, value):
+        return {"name": name, "kind": "inst", "params": [], "pre": [], "conds": [], "dur": upj.NONE, "sim": False,
+                "effects": [{"kind": "assign", "f": fe(target), "v": value, "c": upj.TRUE_E, "forall": []}]}
+
+    out = []
+    for _ in range(n):
+        y, z = rng.sample(nums, 2)
+        step_v = fx(y) if rng.random() < 0.6 else E("plus", [fx(y), E("const", v=NV(1))])
+        Q = copy.deepcopy(P)
+        Q["actions"] = [act("chain_step", z, step_v)] + Q["actions"] + \
+                       [act("chain_probe", y, E("ifun", [E("const", v=NV(rng.choice([-1, 0, 1, 2, 3, 4])))], name="g"))]
+        Q["name"] = "g_chain"
+        out.append(Q)
+    return out
+
+
+def _chain_goal(P, rng):
+    """goal z = v for a chain variant, when [chain_probe, chain_step] is executable and gives z a value that neither
+    the initial state nor chain_step alone gives; None otherwise"""
+    from unified_planning.engines.sequential_simulator import UPSequentialSimulator
+    from ..upj import E
+
+    try:
+        problem = upj.build(P)
+        sim = UPSequentialSimulator(problem, error_on_failed_checks=False)
+        s0 = sim.get_initial_state()
+        s1 = sim.apply(s0, problem.action("chain_probe"), ())
+        s2 = sim.apply(s1, problem.action("chain_step"), ()) if s1 is not None else None
+        if s2 is None:
+            return None
+        alt = sim.apply(s0, problem.action("chain_step"), ())
+        keys = upj.keys_of(P)
+        zt = P["actions"][0]["effects"][0]["f"]
+        zi = [i for i, (n_, a_) in enumerate(keys) if n_ == zt["name"] and a_ == [x["name"] for x in zt["args"]]][0]
+        v0, v2 = upj.state_vector(s0, problem, keys)[zi], upj.state_vector(s2, problem, keys)[zi]
+        va = upj.state_vector(alt, problem, keys)[zi] if alt is not None else None
+        if v2 == v0 or v2 == va or v2["k"] != "n":
+            return None
+        P2 = dict(P)
+        P2["goals"] = [E("eq", [E("fluent", zt["args"], name=zt["name"]), E("const", v=v2)])]
+        return P2
+    except Exception:
+        return None
+
+
 def _retarget_goals(P, problem, rng):
     from unified_planning.engines.sequential_simulator import UPSequentialSimulator
     from ..gen import ground_actions
@@ -72,11 +137,25 @@ def worker(job):
     pid, P, mode, seed = job
     import unified_planning as up
 
+    if isinstance(P, list):
+        # chain variants (see ifun_chains): keep the first one with a usable chain goal, else the base problem
+        base, variants = P[0], P[1:]
+        P = base
+        try:
+            with time_limit(60):
+                for Q in variants:
+                    Q2 = _chain_goal(Q, random.Random(seed))
+                    if Q2 is not None:
+                        P = Q2
+                        break
+        except ImplTimeout:
+            pass
+
     rec = {"id": pid, "P": P, "keys": upj.keys_of(P), "mode": mode, "status": "", "has_plan": False, "plan": [], "skip": "", "complete": True}
     try:
         with time_limit(40):
             problem = upj.build(P)
-            if seed % 3 != 0:
+            if seed % 3 != 0 and P["name"] != "g_chain":
                 # generator heuristic (not an oracle): aim the hard goals at a state the implementation's
                 # simulator reaches by a short random walk, so that most problems are solvable
                 P2 = _retarget_goals(P, problem, random.Random(seed))
@@ -136,15 +215,18 @@ def run(ctx):
         tries += 1
         if len(jobs) % 2 == 0:
             P = g_if.problem()
-            if "'ifun'" not in repr(P["actions"]) + repr(P["goals"]):
-                continue
             mode = "ifp"
+            vs = ifun_chains(P, ctx.rng) if len(jobs) % 4 == 0 and finite_problem(P) else []
+            if vs:
+                P = [P] + vs
+            elif "'ifun'" not in repr(P["actions"]) + repr(P["goals"]):
+                continue
         else:
             P = g_os.problem()
             if P["metric"]["kind"] != "oversub":
                 continue
             mode = "oversub"
-        if not finite_problem(P):
+        if not finite_problem(P[0] if isinstance(P, list) else P):
             continue
         pid += 1
         jobs.append((pid, P, mode, ctx.seed * 7919 + pid))
@@ -160,7 +242,10 @@ def run(ctx):
         raise MachineryError("nothing solved: %r" % skipped)
     for r in batch:
         if r["status"].startswith("X:"):
-            ctx.violation("meta-engine-raises-%s|%s" % (r["status"][2:], r["mode"]), "%s raised %s: %s" % (r["mode"], r["status"], r.get("detail", "")),
+            import re
+
+            slug = re.sub(r"[^A-Za-z]+", "-", r.get("detail", ""))[:60].strip("-")
+            ctx.violation("meta-engine-raises-%s|%s|%s" % (r["status"][2:], r["mode"], slug), "%s raised %s: %s" % (r["mode"], r["status"], r.get("detail", "")),
                           {"problem": r["P"], "mode": r["mode"], "detail": r.get("detail", "")})
     judged = [r for r in batch if not r["status"].startswith("X:")]
     d = ctx.sub("judge")
